@@ -189,7 +189,8 @@ NEW_PREFIX = '/opt/c10-new'
 def attempt(backend, bld, env, fault=None, log=None, how='backend', src=None):
     """how: 'backend' - the regeneration the build file itself runs;
     'reconfigure' - configure the existing build directory again with another
-    --prefix; 'regenerate' - a forced `bfg9000 regenerate`."""
+    --prefix; 'regenerate' - a forced `bfg9000 regenerate`; 'lazy' - the
+    `bfg9000 regenerate --lazy` the build files themselves run."""
     e = dict(env)
     if how != 'backend':
         if fault:
@@ -200,6 +201,8 @@ def attempt(backend, bld, env, fault=None, log=None, how='backend', src=None):
         if how == 'reconfigure':
             argv = [bfg, 'configure-into', src, bld, '--backend=' + backend,
                     '--no-resolve-packages', '--prefix=' + NEW_PREFIX]
+        elif how == 'lazy':
+            argv = [bfg, 'regenerate', '--lazy', bld]
         else:
             argv = [bfg, 'regenerate', bld]
         return sandbox.run(argv, os.path.dirname(bld), e)
@@ -371,6 +374,33 @@ def enumerate_pair(rec, pair, shard, nshards, only=None):
                             else 'differ from the uninterrupted run',
                             [(e[1], role(e[2])) for e in events]), case)
                     break
+            if pair['edit'] == 'reconfigure' and 'find' in pair['features']:
+                # the same crash followed by the lazy regeneration the build
+                # file would run: it may only be skipped when the files
+                # already are what the uninterrupted run writes
+                restore(saved, bld)
+                attempt(backend, bld, env, fault='{}:{}'.format(i, v),
+                        how=first, src=src)
+                lz = attempt(backend, bld, env, how='lazy', src=src)
+                now = declared_outputs(bld, backend)
+                bad = [fn for fn in ref if now.get(fn) != ref[fn]]
+                if lz.rc == 0 and bad:
+                    first_bf = min([j for (j, k_, p_) in events
+                                    if k_ == 'open-w' and
+                                    role(p_) == 'buildfile'] or [10 ** 6])
+                    window = ('build-file-write' if i >= first_bf
+                              else 'before-build-file')
+                    rec.fail(
+                        'fault/lazy-stale/reconfigure/{}'.format(window),
+                        'a re-configuration (--prefix={}) was stopped by '
+                        'fault {} at event {} ({} {}); `regenerate --lazy` '
+                        'then exits 0 but {} {} (events: {})'.format(
+                            NEW_PREFIX, v, i, kind, role(path), bad,
+                            'still describe the old configuration'
+                            if all(now.get(fn) == before.get(fn)
+                                   for fn in bad)
+                            else 'differ from the uninterrupted run',
+                            [(e[1], role(e[2])) for e in events]), case)
             if probe_rel:
                 ok = all(declared_outputs(bld, backend).get(fn) == ref[fn]
                          for fn in ref)
